@@ -94,8 +94,11 @@ func floatEdges(c *vm.Ctx, r *vm.Rand, n int) {
 			if strings.HasSuffix(lit, ".") {
 				lit += "0"
 			}
-			if r.Intn(4) == 0 {
+			switch r.Intn(8) {
+			case 0, 1:
 				lit = "-" + lit
+			case 2:
+				lit = "+" + lit
 			}
 			suf := map[bool][]string{true: {"f", "F"}, false: {"d", "D", ""}}[is32]
 			lit += suf[r.Intn(len(suf))]
@@ -281,6 +284,9 @@ func b2t2b(c *vm.Ctx, r *vm.Rand, g *nbtgen.G, i int) {
 			c.Violation("b2t2b/tagtype-announced", fmt.Sprintf("TagType() announced %s for a %s", refnbt.TagName(tt), refnbt.TagName(tree.Tag)), w2())
 		}
 		c.Cover("b2t2b.roundtrip")
+		if text == string(sm) {
+			streamOfTwo(c, i, doc, text, network, name, tree, wit)
+		}
 		for f := range feats {
 			c.Cover("doc." + f)
 		}
@@ -354,6 +360,10 @@ func t2b(c *vm.Ctx, r *vm.Rand, g *nbtgen.G, i int) {
 		c.Cover("text." + f)
 	}
 	c.Cover("t2b.agree")
+	// the same text inside an enclosing document and under a root name
+	for _, form := range nestedForms {
+		nestedOne(c, "t2b", form, text, tree, !mayRefuse, wit)
+	}
 	if i < 2 {
 		c.Sample("t2b", map[string]any{"text": short(text), "doc_hex": vm.Hex(doc)})
 	}
@@ -377,10 +387,14 @@ func total(c *vm.Ctx, text string, class string) {
 	}
 	ref := refsnbt.Parse([]byte(text))
 	c.Cover("total.ref." + ref.Status.String())
+	outOfRange := ref.Status == refsnbt.Lenient && strings.HasPrefix(ref.Reason, "integer literal out of range")
 	if err != nil {
 		c.Cover("total.lib.error")
 		if ref.Status == refsnbt.OK {
 			c.Violation("total/agreement-text-rejected/"+vm.NormErr(err.Error()), "the parser rejects a text of the agreement grammar: "+err.Error(), wit())
+		}
+		if outOfRange {
+			c.Cover("total.out-of-range-integer.refused-or-read-as-string")
 		}
 		return
 	}
@@ -411,6 +425,9 @@ func total(c *vm.Ctx, text string, class string) {
 				c.Violation("total/accepted-with-another-meaning/"+reasonClass(ref.Reason)+"/"+diffClass(d), "the text uses a construct a parser may refuse ("+ref.Reason+"); it was accepted, but not with the value its readers give it: "+d, wit())
 			} else {
 				c.Cover("total.lenient-construct-accepted-with-its-meaning")
+				if outOfRange {
+					c.Cover("total.out-of-range-integer.refused-or-read-as-string")
+				}
 			}
 		}
 	}
@@ -426,6 +443,8 @@ var handTexts = []string{
 	"true", "false", "True", "\"\"", "''", "\"", "'", "\"a", "'a", `"\"`, `"\\"`, `"\n"`, `"\x"`, `'\''`, `'\"'`, `"\'"`, `"a"b`, `"a""b"`, `a"b"`, "a b", "a\tb", "§", "a§", "\x00", "\xff", "日本", "\"日本\"",
 	"{a:1}", "{ a : 1 }", "{\"a\":1}", "{'a':1}", "{a:1,b:2}", "{a:{b:{c:1}}}", "{a:[1,2,3]}", "{a:[B;1b],b:[I;1],c:[L;1l]}", "{1:2}", "{1.5:2}", "{-:1}", "{a.b:1}", "{\"\":1}", "{a:1,a:2}", "{a:\"x\"}}", "{{a:1}}", "[[[[[[[[[[", "]]]]]]]]]]", "[[[[[[[[[[1]]]]]]]]]]", "{a:[{b:[{c:[]}]}]}",
 	"[B; ]", "[ B;1b]", "[B ;1b]", "[B;1b ,2b]", "[ ]", "{ }", " { } ", "[I;]", "[L;]", "[B;]", "[I;-1,0,1]", "[\"a\",\"b\"]", "['a',\"b\"]", "[a,b]", "[a,1]", "[1.5,2.5]", "[1.5,2]", "[1f,1d]",
+	"-2147483649", "+2147483648", "-32769S", "+32768s", "-9223372036854775809l", "+128B", "-129B", "0128b", "-00129b", "99999999999", "{a:128b}", "{a:2147483648,b:1}", "[128b]", "[300b,400b]", "[2147483648,2147483649]", "[128b,1b]", "{128b:1b}",
+	"+1.5", "+0.5f", "+2.0D", "+0.0", "[+1.5,+2.5]", "{a:+1.5f}", "+1.5e1", "+.5",
 	"{a:1}\n", "\n{a:1}", "{a:1} ,", "{a:1}{b:2}", "[1][2]", "\"a\"\"b\"", "a:b", "a,b", "a;b", ";", ":", ",",
 }
 
@@ -502,6 +521,9 @@ func run(c *vm.Ctx) {
 	floatEdges(c, c.Rand("float-edges"), c.Scale(4000, 80000))
 	if c.Shard == 0 {
 		longStrings(c)
+	}
+	if c.Shard == 1%c.NShards {
+		deepNesting(c)
 	}
 	// totality
 	mr := c.Rand("mutations")
